@@ -134,37 +134,8 @@ func runC04(c *Ctx) {
 	c.R.Check(nIndex >= 20, r1, "router-side packages", "list index sites enumerated", "-", fmt.Sprintf("only %d message-list index sites found; 20 were confirmed by reading", nIndex))
 	c.R.Floor(r1, 22)
 
-	// R2: no nil message into the router
 	const r2 = "C04.R2 transports never deliver a nil message"
-	nRd := 0
-	for _, fname := range []string{"transport.(*rawSocketPeer).recvHandler", "transport.(*websocketPeer).recvHandler"} {
-		fn := c.Fn(r2, fname)
-		if fn == nil {
-			continue
-		}
-		for _, in := range ir.Instrs(fn) {
-			var vals []ssa.Value
-			switch x := in.(type) {
-			case *ssa.Send:
-				if strings.HasSuffix(ir.Desc(x.Chan), ".rd") {
-					vals = append(vals, x.X)
-				}
-			case *ssa.Select:
-				for _, st := range x.States {
-					if st.Dir == types.SendOnly && strings.HasSuffix(ir.Desc(st.Chan), ".rd") {
-						vals = append(vals, st.Send)
-					}
-				}
-			}
-			for _, v := range vals {
-				nRd++
-				c.R.Check(!mayBeNilConst(v, 0), r2, fname, fmt.Sprintf("message sent to the router #%d is never the nil constant", nRd), c.pos(in),
-					"the value sent on the peer's receive channel can be the untouched zero value (nil) on some path: the router calls methods on it and panics")
-			}
-		}
-		// a successful Deserialize is the only source
-		c.Has(r2, fname, "message comes from Deserialize", `^call:invoke:serialize\.Serializer\.Deserialize\[`, 1)
-	}
+	ruleNoNilMessage(c, r2)
 	c.R.Floor(r2, 6)
 
 	// R3: reviewed panic sites
@@ -325,4 +296,36 @@ func lenGuarded(fn *ssa.Function, ia *ssa.IndexAddr) bool {
 		T(`^\(.* < \(call:builtin:len\(`+l+`\) - \d+\)\)$`))
 	ok, w := ir.GuardedBy(fn, ia, guard)
 	return ok && w.CutCount > 0
+}
+// ruleNoNilMessage: transport receive loops hand only decoded messages to the router.
+func ruleNoNilMessage(c *Ctx, r2 string) {
+	nRd := 0
+	for _, fname := range []string{"transport.(*rawSocketPeer).recvHandler", "transport.(*websocketPeer).recvHandler"} {
+		fn := c.Fn(r2, fname)
+		if fn == nil {
+			continue
+		}
+		for _, in := range ir.Instrs(fn) {
+			var vals []ssa.Value
+			switch x := in.(type) {
+			case *ssa.Send:
+				if strings.HasSuffix(ir.Desc(x.Chan), ".rd") {
+					vals = append(vals, x.X)
+				}
+			case *ssa.Select:
+				for _, st := range x.States {
+					if st.Dir == types.SendOnly && strings.HasSuffix(ir.Desc(st.Chan), ".rd") {
+						vals = append(vals, st.Send)
+					}
+				}
+			}
+			for _, v := range vals {
+				nRd++
+				c.R.Check(!mayBeNilConst(v, 0), r2, fname, fmt.Sprintf("message sent to the router #%d is never the nil constant", nRd), c.pos(in),
+					"the value sent on the peer's receive channel can be the untouched zero value (nil) on some path: the router calls methods on it and panics")
+			}
+		}
+		// a successful Deserialize is the only source
+		c.Has(r2, fname, "message comes from Deserialize", `^call:invoke:serialize\.Serializer\.Deserialize\[`, 1)
+	}
 }
